@@ -569,3 +569,59 @@ func cellInit(al *ssa.Alloc) ssa.Value {
 	}
 	return nil
 }
+
+// ReachingDefs returns the values that may have been stored into the local cell read by
+// `load` (a *ssa.UnOp load of an *ssa.Alloc), by a backward walk over the CFG.
+func ReachingDefs(load ssa.Value) []ssa.Value {
+	u, ok := load.(*ssa.UnOp)
+	if !ok || u.Op != token.MUL {
+		return nil
+	}
+	al, ok := u.X.(*ssa.Alloc)
+	if !ok {
+		return nil
+	}
+	var out []ssa.Value
+	seenV := map[ssa.Value]bool{}
+	seenB := map[*ssa.BasicBlock]bool{}
+	var walk func(b *ssa.BasicBlock, from int)
+	walk = func(b *ssa.BasicBlock, from int) {
+		for i := from; i >= 0; i-- {
+			if st, ok := b.Instrs[i].(*ssa.Store); ok && st.Addr == ssa.Value(al) {
+				if !seenV[st.Val] {
+					seenV[st.Val] = true
+					out = append(out, st.Val)
+				}
+				return
+			}
+		}
+		for _, p := range b.Preds {
+			if seenB[p] {
+				continue
+			}
+			seenB[p] = true
+			walk(p, len(p.Instrs)-1)
+		}
+	}
+	walk(u.Block(), InstrIndex(u)-1)
+	return out
+}
+
+// ResultOfCall reports whether v is result #idx of call, directly or through a local cell all
+// of whose reaching definitions are that result.
+func ResultOfCall(v ssa.Value, call *ssa.Call, idx int) bool {
+	v = Unwrap(v)
+	if c, i, ok := CallResult(v); ok && c == call && (i == idx || call.Call.Signature().Results().Len() == 1) {
+		return true
+	}
+	defs := ReachingDefs(v)
+	if len(defs) == 0 {
+		return false
+	}
+	for _, d := range defs {
+		if c, i, ok := CallResult(d); !ok || c != call || !(i == idx || call.Call.Signature().Results().Len() == 1) {
+			return false
+		}
+	}
+	return true
+}
